@@ -230,6 +230,9 @@ def plan_c03():
 
     def targets(tier):
         t = [("queues.norecl", "xrt-prod"), ("queues.norecl", "xrt-tsan")]
+        for simple in ("deque", "seqlock", "leftright"):
+            t += [(simple, "xrt-prod"), (simple, "xrt-tsan")]
+        t += [("harris.R%d" % r, "xrt-prod") for r in R8] + [("harris.R%d" % r, "xrt-tsan") for r in (1, 3, 5)]
         for fam, recls in fams_prod:
             t += [("%s.R%d" % (fam, r), "xrt-prod") for r in recls]
         for fam, recls in fams_tsan:
@@ -246,6 +249,17 @@ def plan_c03():
             jobs += queue_jobs(list_configs, fams_tsan[0][1], r".", "xrt-tsan", "weak", eq, seed + w + 1, norecl=True, window=w, per_job=3)
             jobs += generic_jobs(list_configs, "reclaim", R8 + RPLUS, r"^proto_", "xrt-prod", "weak", er, seed + w, window=w, per_job=2)
             jobs += generic_jobs(list_configs, "reclaim", fams_tsan[1][1], r"^proto_", "xrt-tsan", "weak", er, seed + w + 1, window=w, per_job=2)
+            eh = 150 if tier == "quick" else 2000
+            jobs += generic_jobs(list_configs, "harris", R8, r".", "xrt-prod", "weak", eh, seed + w, window=w, per_job=4)
+            jobs += generic_jobs(list_configs, "harris", [1, 3, 5], r".", "xrt-tsan", "weak", eh, seed + w + 1, window=w, per_job=4)
+            es = 1500 if tier == "quick" else 20000
+            for simple in ("deque", "seqlock", "leftright"):
+                for variant in ("xrt-prod", "xrt-tsan"):
+                    cfgs = cfgs_matching(list_configs, simple, variant, r".")
+                    for k in range(0, len(cfgs), 3):
+                        jobs.append(dict(target=simple, variant=variant, timeout=3600,
+                                         args=["--cfg", ",".join(cfgs[k:k + 3]), "--mode", "weak", "--seed", str(seed + w + (2 if variant == "xrt-tsan" else 0)),
+                                               "--execs", str(es if simple != "leftright" else es * 2), "--window", str(w)]))
         return jobs
 
     def gates(tier, agg, counters, per_config, distinct):
